@@ -154,6 +154,7 @@ def main(argv=None) -> int:
     samples = []
     violations = []
     refusal_stages: dict = {}
+    vclasses: dict = {}
     crash_samples: list = []
     faultfree = {"runs": 0, "violations": 0}
     faulty = {"runs": 0, "violations": 0}
@@ -198,6 +199,8 @@ def main(argv=None) -> int:
         if st == "violation":
             bucket["violations"] += 1
             violations.append(ans)
+            vc = r["violation"]["class"] + (":" + str(r.get("vtag")) if r.get("vtag") else "")
+            vclasses[vc] = vclasses.get(vc, 0) + 1
         if ans.get("case") is not None and st == "ok" and len(samples) < 4:
             samples.append({
                 "seed": task_by_id[ans["id"]]["seed"],
@@ -330,6 +333,8 @@ def main(argv=None) -> int:
           f"distinct={nontrivial} ticks={stats['ticks']} wall={wall:.1f}s")
     print("fired:", json.dumps(fired, sort_keys=True))
     print("probes:", json.dumps(probes, sort_keys=True))
+    if vclasses:
+        print("violation classes:", json.dumps(vclasses, sort_keys=True))
     if refusal_stages:
         print("refusals:", json.dumps(refusal_stages, sort_keys=True))
     for c in crash_samples:
